@@ -39,7 +39,8 @@ def bad_policy(rep):
 
     from formulae import design_matrices
 
-    df = pd.DataFrame({"y": [1, 2, 3], "x": [1.0, None, 3.0]})
+    # a frame without missing values: an exception can then only be the refusal of the policy itself
+    df = pd.DataFrame({"y": [1, 2, 3], "x": [1.0, 2.0, 3.0]})
     # near misses of the three documented spellings included
     for pol in ("omit", "", None, "DROP", "raise", 0, "err", "pas", "rop", "p", "d", "drop ", " pass", "droperror", "Error", True, ["drop"]):
         rep.cov["evaluations"] += 1
